@@ -272,6 +272,10 @@ def _env():
                 asyncio.current_task().cancel()
                 await asyncio.sleep(0)
                 raise AssertionError("cancellation was not delivered")
+            if ev == "cancel-pending":
+                # cancellation *requested* here (e.g. by another task / a signal handler); asyncio delivers it at the
+                # next point where this task really suspends
+                asyncio.current_task().cancel()
 
         async def write(self, data, timeout=None, tags=None):
             i = self.nw
@@ -295,6 +299,8 @@ def _env():
                 self.t_last_read = time.time()
                 return self.last_reply
             await self._event(ev[0])
+            if ev[0] == "cancel-pending":
+                return await self.read(timeout, tags)
 
     _ENV.update(H=H, E=E, S=S, Cfg=UDSRequestConfig, RespExc=ResponseException, UDSExc=UDSException, Scripted=Scripted,
                 K=_kinds(S), tmpl=None)
@@ -311,6 +317,7 @@ async def _body(env, case, path, out):
     db = H.DBHandler(path)
     out["db"] = db
     await db.connect()
+    out["qmax"] = db._execute_queue.maxsize
     await db.connection.execute(
         "INSERT INTO run_meta(script, config, start_time, start_timezone, path, exclude) VALUES ('c11','{}',0,'UTC','-',FALSE)")
     await db.connection.commit()
@@ -337,6 +344,8 @@ async def _body(env, case, path, out):
                 ecu.max_retry = p["max_retry"]
             script = [list(e) for e in p["script"]]
             wscript = dict(p["wscript"])
+            if crash and crash["how"] == "cancel-pending" and crash["after"] == i:
+                script.insert(crash["at"][1], ["cancel-pending"])
             if crash and crash["how"] == "cancel-in" and crash["after"] == i:
                 # cancellation delivered at the given await of this exchange
                 if crash["at"][0] == "w":
@@ -369,6 +378,8 @@ async def _body(env, case, path, out):
                 ecu.max_retry = 0
             if fatal is not None:
                 raise fatal
+            if crash and crash["how"] == "cancel-pending" and crash["after"] == i:
+                await asyncio.sleep(0)  # the scanner's next suspension point: the requested cancellation arrives here at the latest
             for _ in range(p.get("yields", 0)):
                 await asyncio.sleep(0.001)
         if crash and crash["how"] in ("raise", "cancel") and crash["after"] >= len(case["plans"]):
@@ -621,7 +632,7 @@ def _shrink(case, idx, bad_key):
             c = {"plans": case["plans"][:k], "crash": None}
             cr = case.get("crash")
             if cr:
-                c["crash"] = dict(cr, after=min(cr["after"], k)) if cr["how"] != "cancel-in" else (cr if cr["after"] < k else None)
+                c["crash"] = dict(cr, after=min(cr["after"], k)) if cr["how"] not in ("cancel-in", "cancel-pending") else (cr if cr["after"] < k else None)
             cands.append(c)
     for c in cands:
         r = run_case(c)
@@ -826,6 +837,24 @@ def _attrs_corr(ctx):
     ctx.notes["request_response_classes_not_in_sample_table"] = missing
 
 
+def _probe_qmax():
+    """capacity of the live DBHandler's write queue (0 = unbounded): decides how long a burst must be to fill it"""
+    try:
+        out = {"obs": [], "db": None, "run": None}
+        env = _env()
+        with tempfile.TemporaryDirectory(prefix="c11-") as d:
+            loop = VLoop()
+            asyncio.set_event_loop(loop)
+            try:
+                loop.run_until_complete(_body(env, {"plans": [], "crash": None}, Path(d) / "scan.sqlite", out))
+            finally:
+                asyncio.set_event_loop(None)
+                loop.close()
+        return int(out.get("qmax") or 0)
+    except Exception:
+        return 0
+
+
 def gen_cases(ctx):
     env = _env()
     K = env["K"]
@@ -882,6 +911,21 @@ def gen_cases(ctx):
         n = rng.randint(20, ctx.pick(60, 300))
         plans = [_plan(rng, K, rng.choice([10, 13, 0, 5]), rng.choice(["positive", "negative", "timeout"]), tags=None) for _ in range(n)]
         cases.append(("burst", {"plans": plans, "crash": rng.choice([None, {"how": "cancel", "after": n}, {"how": "raise", "after": n // 2}])}))
+    # 7. a cancellation *requested* during an exchange (delivered at the task's next suspension point), at every read of
+    #    small histories and at the end of long bursts that leave a backlog of unwritten rows (the producer never yields,
+    #    so the consumer does not run): the row of the completed exchange must still be there
+    for _ in range(ctx.pick(30, 120)):
+        pre = [_plan(rng, K, rng.randrange(len(K)), rng.choice(OUTCOMES[:15]), implicit=rng.random() < 0.85, yields=rng.choice([0, 0, 1]))
+               for _ in range(rng.randint(0, 3))]
+        pre = [p for p in pre if p["outcome"] not in ("raise-read", "raise-write")]
+        last = _plan(rng, K, rng.randrange(len(K)), rng.choice(["pending-positive", "busy-retry-positive", "positive", "negative", "pending-negative"]))
+        for j in range(len(last["script"])):
+            cases.append(("cancel-requested-in-flight", {"plans": pre + [last], "crash": {"how": "cancel-pending", "after": len(pre), "at": ["r", j]}}))
+    qmax = _probe_qmax()
+    sizes = [ctx.pick(150, 1200), ctx.pick(40, 400)] if not qmax else [qmax + 2, qmax + 1, max(1, qmax - 1)]
+    for n in sizes:
+        plans = [_plan(rng, K, rng.choice([10, 13, 0, 5]), rng.choice(["positive", "positive", "negative"]), tags=None) for _ in range(n)]
+        cases.append(("backlog-cancel-requested-in-flight", {"plans": plans, "crash": {"how": "cancel-pending", "after": n - 1, "at": ["r", 0]}}))
     # 6. cancellation while disconnect() waits for the queue
     for n in (1, 3, 20):
         plans = [_plan(rng, K, 10, "positive", tags=None) for _ in range(n)]
@@ -899,6 +943,7 @@ def run(ctx):
     cases = gen_cases(ctx)
     ctx.exhaustive_parts.append(f"every request kind ({len(_env()['K'])}) x every outcome class ({len(OUTCOMES)}) as a single-exchange history")
     ctx.exhaustive_parts.append("cancellation at every write / read await of multi-await exchanges (pending loop, retries)")
+    ctx.exhaustive_parts.append("cancellation requested (not yet delivered) at every read of the last exchange of small histories, and at the end of bursts long enough to fill the write queue if it had a capacity")
     budget = ctx.pick(60, 780)
     pending = []
     import multiprocessing as mp
@@ -945,7 +990,9 @@ MANIFEST = {
                    "back with sqlite3."),
     "level_note": ("Trusted: Lean kernel, sqlite/aiosqlite/file system durability, asyncio.Queue contract, wall clock "
                    "monotonicity, the harness. The inner retry loop's outcome is an input of the model (C04 owns it); recurring "
-                   "OperationalErrors are modelled (retry choice) but not injected."),
+                   "OperationalErrors are modelled (retry choice) but not injected. The producer's put never suspends because the "
+                   "write queue is unbounded: regenerated from the AST of DBHandler.connect on every run (theorem queue_unbounded), "
+                   "a bounded queue is shown to lose rows (witness example)."),
     "technique": "Lean 4 proof (invariant over an interleaving semantics) + regenerated attribute-shape table + differential correspondence against the real ECU/DBHandler on sqlite",
     "design_ref": "DESIGN.md section 7, C11",
 }
